@@ -348,7 +348,7 @@ def edit_output(draw, o):
     return o
 
 
-CELL_EDITS = ["source", "source", "source", "outputs", "outputs", "metadata", "ec", "attach", "type"]
+CELL_EDITS = ["source", "source", "source", "outputs", "outputs", "metadata", "ec", "attach", "type", "rerun", "toggle"]
 
 
 @st.composite
@@ -361,6 +361,22 @@ def edit_cell(draw, c, minor, kinds=None):
             c["source"] = draw(edit_text(c["source"], pool))
         elif w == "metadata":
             _edit_cell_metadata(draw, c, minor)
+        elif w == "rerun":
+            # a plain re-execution: only transient fields change (cell and execute_result execution counts)
+            if c["cell_type"] == "code":
+                ec = draw(st.sampled_from([11, 12, 13]))
+                c["execution_count"] = ec
+                for o in c["outputs"]:
+                    if o["output_type"] == "execute_result":
+                        o["execution_count"] = ec
+            else:
+                c["metadata"]["collapsed"] = not c["metadata"].get("collapsed", False) if isinstance(c["metadata"].get("collapsed", False), bool) else True
+        elif w == "toggle":
+            if c["cell_type"] == "code":
+                k = draw(st.sampled_from(["collapsed", "scrolled"]))
+                c["metadata"][k] = not c["metadata"].get(k) if isinstance(c["metadata"].get(k), bool) else True
+            else:
+                c["source"] = draw(edit_text(c["source"], pool))
         elif w == "ec":
             if c["cell_type"] == "code":
                 c["execution_count"] = draw(st.sampled_from([None, 1, 2, 5, 9]))
@@ -515,11 +531,16 @@ def _forced_conflict(draw, base):
         return l, r, shape
     i = draw(st.integers(0, n - 1))
     c = base["cells"][i]
+    dve = draw(st.sampled_from([None, None, ["source", "rerun"], ["source", "toggle"], ["rerun"], ["rerun", "toggle"], ["source", "outputs"]]))
     if shape == "del_vs_edit":
         del l["cells"][i]
-        r["cells"][i] = draw(edit_cell(c, minor))
+        r["cells"][i] = draw(edit_cell(c, minor, dve))
+        if dve and len(dve) == 2:
+            r["cells"][i] = draw(edit_cell(r["cells"][i], minor, dve[::-1]))
     elif shape == "edit_vs_del":
-        l["cells"][i] = draw(edit_cell(c, minor))
+        l["cells"][i] = draw(edit_cell(c, minor, dve))
+        if dve and len(dve) == 2:
+            l["cells"][i] = draw(edit_cell(l["cells"][i], minor, dve[::-1]))
         del r["cells"][i]
     elif shape == "both_del":
         del l["cells"][i]
